@@ -21,7 +21,8 @@ steps of the `try` block are therefore left free up to: no temp file other than 
 user paths are opened read-only (`okFor f`).  The machine is nondeterministic in those steps, the harness checks
 that the observed trace is one of its runs, and the theorems are for all runs.  A fault is a parameter: none, a
 failure of the temp-file creation itself, or a failure of the `k`-th step of the `try` block (that step is
-attempted, nothing after it runs).
+attempted, nothing after it runs).  The `try` block as a whole is a free list of `okFor f` steps (the real one
+starts with `writeTemp f`; a rewrite that e.g. removes the empty file before writing is still a run).
 -/
 namespace Cache
 
@@ -68,12 +69,12 @@ def cut : Fault → List Step → List Step
 /-- the `finally` clause: remove the cache file if it exists -/
 def cleanup (s : St) (f : Nat) : List Step := if s.tmp.contains f then [Step.unlink f] else []
 
-/-- everything up to the `finally` clause -/
+/-- everything up to the `finally` clause (`blk` = the whole `try` block; in the real code it starts with
+`writeTemp f`, but nothing depends on that) -/
 def objectPre (f : Nat) (blk : List Step) (fl : Fault) : List Step :=
-  Step.mkTemp f :: cut fl (Step.writeTemp f :: blk)
+  Step.mkTemp f :: cut fl blk
 
-/-- trace of a decorated call on an in-memory library (`blk` = what the try block does after entering the
-write); the `finally` clause always runs -/
+/-- trace of a decorated call on an in-memory library; the `finally` clause always runs -/
 def objectTrace (s0 : St) (f : Nat) (blk : List Step) : Fault → List Step
   | .create => []
   | fl => objectPre f blk fl ++ cleanup ((objectPre f blk fl).foldl apply s0) f
@@ -116,7 +117,7 @@ def candA (s0 : St) (f : Nat) (rest : List Step) (raisedFlag : Bool) : Option (N
   match rest.getLast? with
   | some (.unlink g) =>
     if g = f ∧ rest.dropLast.all (okFor f) = true ∧
-        ((Step.mkTemp f :: Step.writeTemp f :: rest.dropLast).foldl apply s0).tmp.contains f = true then
+        ((Step.mkTemp f :: rest.dropLast).foldl apply s0).tmp.contains f = true then
       some (f, rest.dropLast, faultOf raisedFlag rest.dropLast)
     else none
   | _ => none
@@ -124,7 +125,7 @@ def candA (s0 : St) (f : Nat) (rest : List Step) (raisedFlag : Bool) : Option (N
 /-- (B) nothing left to clean up -/
 def candB (s0 : St) (f : Nat) (rest : List Step) (raisedFlag : Bool) : Option (Nat × List Step × Fault) :=
   if rest.all (okFor f) = true ∧
-      ((Step.mkTemp f :: Step.writeTemp f :: rest).foldl apply s0).tmp.contains f = false then
+      ((Step.mkTemp f :: rest).foldl apply s0).tmp.contains f = false then
     some (f, rest, faultOf raisedFlag rest)
   else none
 
@@ -133,12 +134,10 @@ def candB (s0 : St) (f : Nat) (rest : List Step) (raisedFlag : Bool) : Option (N
 def matchObject (s0 : St) (tr : List Step) (raisedFlag : Bool) : Option (Nat × List Step × Fault) :=
   match tr with
   | [] => if raisedFlag then some (0, [], .create) else none
-  | .mkTemp f :: .writeTemp f' :: rest =>
-    if f' = f then
-      match candA s0 f rest raisedFlag with
-      | some r => some r
-      | none => candB s0 f rest raisedFlag
-    else none
+  | .mkTemp f :: rest =>
+    match candA s0 f rest raisedFlag with
+    | some r => some r
+    | none => candB s0 f rest raisedFlag
   | _ => none
 
 def matchFile (tr : List Step) (raisedFlag : Bool) : Option (List Step × Fault) :=
